@@ -67,10 +67,6 @@ theorem special_nonnullable : ∀ e ∈ Gen.lexicon.special, nullable e.2.rx = f
 
 theorem lexicon_ok : LexOK Gen.lexicon := ⟨tokens_nonnullable, special_nonnullable⟩
 
-/-- The whitespace / comment unit `WSC` used by `RE_WS_BEGIN`/`RE_WS_END` loops is non-nullable
-    too (the loops `WSC*` themselves are nullable, as they must be). -/
-theorem ws_unit_nonnullable : nullable Gen.rxs_8 = false := by decide +kernel
-
 /-! ## Tokens -/
 
 variable {P : PEnv}
